@@ -26,6 +26,7 @@ TermSet(name) ==
       [] name = "t22s" -> {Aff(<<<<0, 1>>, <<1, 0>>>>, <<1, 0>>)}
       [] name = "tp2one" -> {Aff(<<<<1, 1>>>>, <<1>>), Aff(<<<<0, 1>>>>, <<0>>)}     \* the first one coincides with the predicate of p2one
       [] name = "tp2s" -> PredSet("p2s") \cup {Aff(<<<<0, 1>>>>, <<0>>)}          \* terminals R^2 -> R^1 that coincide with predicates of p2s
+      [] name = "t12o" -> {Aff(<<<<1>>, <<-1>>>>, <<0, 0>>)}
       [] name = "t21" -> {Aff(<<<<1, 1>>>>, <<0>>), Aff(<<<<1, 0>>>>, <<-1>>)}
       [] name = "t12" -> {Aff(<<<<1>>, <<-1>>>>, <<0, 0>>), Aff(<<<<0>>, <<1>>>>, <<1, 1>>)}
       [] name = "t11o" -> {Aff(<<<<-2>>>>, <<1>>)}
